@@ -188,6 +188,45 @@ func (c13) Gen(r *sim.Rand, tier string, run uint64) *sim.Scenario {
 		// mod ndev) over a 16-byte window, from inside the Write callback
 		sc.Cfg["banksw"] = (region + int64(r.Intn(0x10000))) &^ 0xF
 	}
+	if len(edges) > 1 && r.Chance(1, 3) {
+		// a route looked up once, the bus busy elsewhere, the block handed to another device, the
+		// block accessed again: the shape any remembered routing decision has to survive. Drawn
+		// last and appended behind the history, so that everything above is generated as before.
+		a := edges[r.Intn(len(edges))]
+		far := edges[r.Intn(len(edges))]
+		blk := a &^ 0xF
+		first := sim.Op{K: "read", N: []int64{a}}
+		if r.Chance(1, 2) {
+			first = sim.Op{K: "write", N: []int64{a, int64(r.Intn(256))}}
+		}
+		away := sim.Op{K: "read24", N: []int64{far}}
+		switch r.Intn(4) {
+		case 0:
+			away = sim.Op{K: "read", N: []int64{far}}
+		case 1:
+			away = sim.Op{K: "dump", N: []int64{far, far + int64(r.Range(0, 20))}}
+		}
+		dev := int64(r.Intn(ndev))
+		if r.Chance(1, 8) {
+			dev = -1
+		}
+		clamp := func(v int64) int64 {
+			if v < 0 {
+				return 0
+			}
+			if v > 0xFFFFFF {
+				return 0xFFFFFF
+			}
+			return v
+		}
+		if away.K == "dump" {
+			away.N[1] = clamp(away.N[1])
+		}
+		sc.Ops = append(sc.Ops, first, away,
+			sim.Op{K: "attach", N: []int64{dev, blk, clamp(blk + int64(sim.PickInt(r, 1, 1, 2, 16))*16 - 1)}},
+			sim.Op{K: "read", N: []int64{blk + int64(r.Intn(16))}},
+			sim.Op{K: "dump", N: []int64{clamp(blk - int64(r.Intn(9))), clamp(blk + int64(r.Range(15, 40)))}})
+	}
 	return sc
 }
 
